@@ -63,6 +63,12 @@ def configs(prop, tier, rng):
     # every index takes the corrupted role once for n = 3 (checks that loop over "the other parties" are easily asymmetric)
     if not q or prop in ("C03", "C04"):
         out.append(("n3.first", c3, 3, 2, [1, 2], 0))
+    if prop == "C03" or not q:
+        # a circuit without AND gates and a deceived garbler outside the output set: nothing downstream (row decryption,
+        # output labels) can turn an unnoticed equivocation into an error by accident
+        cx = ej.fixed_small(3)[0]
+        out.append(("n3.xor.eval", cx, 3, 0, [1], 0))
+        out.append(("n3.xor.garbler", cx, 3, 1, [1], 0))
     if not q:
         # thorough: every (evaluator, corrupted party) pair
         out.append(("n2.pe1c0", c2, 2, 1, [0, 1], 0))
@@ -151,6 +157,22 @@ def check_adv(prop, tier, replay):
     if prop in ("C02", "C03") and not replay:
         extra, mstates, mtrans = online_model(v, tier, wd, jobs, out)
         extra.update({"states": mstates, "transitions": mtrans})
+    # vacuity guard: a deviation kind of Adversary.tla that could not be applied in ANY run addresses messages or fields
+    # that do not exist (any more) -- the scenario list and the code have drifted apart
+    if not replay:
+        appl = {}
+        cur = None
+        for r in vlib.read_ndjson_filtered(out, '"ev":"end"'):
+            appl[r["run"]] = (bool(r.get("applied")) and all(r["applied"])) or r.get("taps_hit", 0) > 0
+        by_what = {}
+        for j in jobs:
+            w = (j["tag"].get("fam"), j["tag"].get("what"))
+            by_what.setdefault(w, []).append(appl.get(j["id"], False))
+        never = sorted(f"{w[0]}: {w[1]}" for w, xs in by_what.items() if not any(xs))
+        for w in never[:5]:
+            v.spec_drift(f"deviation kind '{w}' of Adversary.tla could not be applied in any run")
+        extra["scenario_kinds"] = len(by_what)
+        extra["scenario_kinds_never_applied"] = never
     sites = {}
     for j in jobs:
         t = j["tag"]
